@@ -43,6 +43,7 @@ def cmp_lt(a: V, b: V) -> bool:
 
 
 def rfc_compare(a: V, op: str, b: V) -> bool:
+    """opaque: the six comparison operators in terms of == and < (Table 11)"""
     if op == "==":
         return cmp_eq(a, b)
     if op == "!=":
@@ -117,6 +118,8 @@ def rfc_search(s: V, p: V) -> V:
 
 
 def call_func(func: V, args: list) -> V:
+    """opaque: what a call of a registered function returns: the RFC's definition for the built-ins, an
+    uninterpreted result for user functions"""
     if isinstance(func, Length):
         return rfc_length(args[0])
     if isinstance(func, Count):
@@ -154,7 +157,7 @@ def result_has_type(typ: V, v: V) -> bool:
 
 
 def conv_arg(typ: V, v: V) -> V:
-    """2.4.2 type conversion of an evaluated argument to its declared parameter type"""
+    """opaque: 2.4.2 type conversion of an evaluated argument to its declared parameter type"""
     if typ == ExpressionType.VALUE:
         if is_nodelist(v):
             return comparand(v)
@@ -166,10 +169,15 @@ def conv_arg(typ: V, v: V) -> V:
     return v
 
 
-def conv_args(types: list, args: list, ctx: V, k: int) -> list:
+def map_eval_expr(exprs: list, ctx: V, k: int) -> list:
+    """opaque: the first k argument expressions, evaluated"""
     if k <= 0:
         return []
-    return conv_args(types, args, ctx, k - 1) + [conv_arg(types[k - 1], eval_expr(args[k - 1], ctx))]
+    return map_eval_expr(exprs, ctx, k - 1) + [eval_expr(exprs[k - 1], ctx)]
+
+
+def conv_args(types: list, args: list, ctx: V, k: int) -> list:
+    return conv_vals(types, map_eval_expr(args, ctx, k), k)
 
 
 # ---- expression evaluation -----------------------------------------------------------
@@ -255,15 +263,13 @@ def wf_registry(r: V) -> bool:
 
 
 def singular_seg(seg: V) -> bool:
-    return (isinstance(seg, JSONPathChildSegment) and len(seg.selectors) == 1
+    return (isinstance(seg, JSONPathChildSegment) and is_tuple(seg.selectors) and len(seg.selectors) == 1
             and (isinstance(seq(seg.selectors)[0], NameSelector) or isinstance(seq(seg.selectors)[0], IndexSelector)))
 
 
 def singular(segments: list, k: int) -> bool:
     """the first k segments are all singular (one name or index selector in a child segment)"""
-    if k <= 0:
-        return True
-    return singular(segments, k - 1) and singular_seg(segments[k - 1])
+    return all(singular_seg(segments[j]) for j in range(k))
 
 
 def func_return(e: V, env: V) -> V:
@@ -283,7 +289,8 @@ def value_typed(e: V, env: V) -> bool:
 def logical_typed(e: V, env: V) -> bool:
     """usable as a test / where a LogicalType is required"""
     return (isinstance(e, FilterQuery) or isinstance(e, LogicalExpression) or isinstance(e, ComparisonExpression)
-            or isinstance(e, PrefixExpression) or func_return(e, env) == ExpressionType.LOGICAL
+            or isinstance(e, PrefixExpression) or isinstance(e, FilterExpression)
+            or func_return(e, env) == ExpressionType.LOGICAL
             or func_return(e, env) == ExpressionType.NODES)
 
 
@@ -339,9 +346,14 @@ def wf_logical_e(e: V, env: V) -> bool:
 
 def wf_comparison_e(e: V, env: V) -> bool:
     """opaque: both comparands are ValueType"""
-    return (is_str(e.operator) and isinstance(e.left, Expression) and isinstance(e.right, Expression)
+    return (is_str(e.operator) and is_comparison_op(str_of(e.operator))
+            and isinstance(e.left, Expression) and isinstance(e.right, Expression)
             and wf_expr(e.left, env) and wf_expr(e.right, env)
             and value_typed(e.left, env) and value_typed(e.right, env))
+
+
+def is_comparison_op(op: str) -> bool:
+    return op == "==" or op == "!=" or op == "<" or op == "<=" or op == ">" or op == ">="
 
 
 def wf_call_e(e: V, env: V) -> bool:
@@ -365,7 +377,7 @@ def is_cmp_arg(v: V) -> bool:
 
 
 def conv_vals(types: list, vals: list, k: int) -> list:
-    """2.4.2 conversions applied to already evaluated arguments"""
+    """opaque: 2.4.2 conversions applied to already evaluated arguments"""
     if k <= 0:
         return []
     return conv_vals(types, vals, k - 1) + [conv_arg(types[k - 1], vals[k - 1])]
